@@ -263,7 +263,12 @@ class AnsiString:
                 settings_to_apply = []
                 old_settings = current_settings
                 current_settings = new_settings
-                for setting_key, setting_value in new_settings.items():
+                # Go in the order of the sequence so that rendering this object reproduces the sequence
+                for setting_value in settings:
+                    setting_key = setting_value.to_effect()
+                    if setting_key not in new_settings or new_settings[setting_key] is not setting_value:
+                        # Cleared or overridden later in this same sequence
+                        continue
                     if setting_key in old_settings:
                         if old_settings[setting_key] != setting_value:
                             settings_to_remove.append(old_settings[setting_key])
